@@ -16,6 +16,9 @@ pub mod urlt;
 pub mod err;
 pub mod jsondoc;
 pub mod tok;
+pub mod intro;
+pub mod devauth;
+pub mod rt;
 
 pub fn dispatch(op: &str, cfg: &RunCfg, d: &mut Driver) -> Option<OpResult> {
     Some(match op {
@@ -36,6 +39,9 @@ pub fn dispatch(op: &str, cfg: &RunCfg, d: &mut Driver) -> Option<OpResult> {
         "tok" => run_op::<tok::TokCase>(cfg, d),
         "err" => run_op::<err::ErrCase>(cfg, d),
         "cfg" => run_op::<cfg::CfgCase>(cfg, d),
+        "intro" => run_op::<intro::IntroCase>(cfg, d),
+        "devauth" => run_op::<devauth::DevCase>(cfg, d),
+        "rt" => run_op::<rt::RtCase>(cfg, d),
         _ => return None,
     })
 }
